@@ -28,7 +28,6 @@ import (
 	"os"
 	"os/exec"
 	"runtime"
-	"runtime/debug"
 	"strings"
 	"sync"
 	"sync/atomic"
@@ -61,10 +60,15 @@ func raceBox(tier, family string) time.Duration {
 	}
 	switch family {
 	case "close-flood-client", "close-flood-server":
+		return 8 * time.Second
+	case "timeout-delivery":
 		return 5 * time.Second
 	}
 	return 3 * time.Second
 }
+
+// two families run at a time (each keeps four to six cores busy); the two long ones are not paired with each other
+var raceOrder = [][]string{{"close-flood-server", "timeout-delivery"}, {"close-flood-client", "send-close-client"}, {"send-close-server"}}
 
 func runRaces(tier string) {
 	type outcome struct {
@@ -74,36 +78,45 @@ func runRaces(tier string) {
 		wall   time.Duration
 	}
 	results := make([]outcome, len(raceFamilies))
-	var wg sync.WaitGroup
-	sem := make(chan struct{}, 2) // two families at a time: each keeps about four cores busy
+	index := map[string]int{}
 	for i, fam := range raceFamilies {
+		index[fam] = i
+	}
+	runOne := func(fam string) {
+		box := raceBox(tier, fam)
+		ctx, cancel := context.WithTimeout(context.Background(), box+25*time.Second)
+		defer cancel()
+		cmd := exec.CommandContext(ctx, os.Args[0], "racechild", fam, fmt.Sprint(box.Milliseconds()))
+		var stdout, stderr bytes.Buffer
+		cmd.Stdout, cmd.Stderr = &stdout, &stderr
+		t0 := time.Now()
+		err := cmd.Run()
+		o := outcome{wall: time.Since(t0), stderr: stderr.String(), status: "0"}
+		if err != nil {
+			o.status = err.Error()
+			if ctx.Err() != nil {
+				o.status = "killed after " + (box + 25*time.Second).String() + " (" + err.Error() + ")"
+			}
+		}
+		for _, l := range strings.Split(stdout.String(), "\n") {
+			if strings.HasPrefix(l, "{") {
+				_ = json.Unmarshal([]byte(l), &o.rep)
+			}
+		}
+		results[index[fam]] = o
+	}
+	// the first column and the second column are two lanes; a lane runs its families one after the other
+	var wg sync.WaitGroup
+	for lane := 0; lane < 2; lane++ {
 		wg.Add(1)
-		go func(i int, fam string) {
+		go func(lane int) {
 			defer wg.Done()
-			sem <- struct{}{}
-			defer func() { <-sem }()
-			box := raceBox(tier, fam)
-			ctx, cancel := context.WithTimeout(context.Background(), box+25*time.Second)
-			defer cancel()
-			cmd := exec.CommandContext(ctx, os.Args[0], "racechild", fam, fmt.Sprint(box.Milliseconds()))
-			var stdout, stderr bytes.Buffer
-			cmd.Stdout, cmd.Stderr = &stdout, &stderr
-			t0 := time.Now()
-			err := cmd.Run()
-			o := outcome{wall: time.Since(t0), stderr: stderr.String(), status: "0"}
-			if err != nil {
-				o.status = err.Error()
-				if ctx.Err() != nil {
-					o.status = "killed after " + (box + 25*time.Second).String() + " (" + err.Error() + ")"
+			for _, pair := range raceOrder {
+				if lane < len(pair) {
+					runOne(pair[lane])
 				}
 			}
-			for _, l := range strings.Split(stdout.String(), "\n") {
-				if strings.HasPrefix(l, "{") {
-					_ = json.Unmarshal([]byte(l), &o.rep)
-				}
-			}
-			results[i] = o
-		}(i, fam)
+		}(lane)
 	}
 	wg.Wait()
 	for i, fam := range raceFamilies {
@@ -158,7 +171,7 @@ func (s *raceState) running() bool {
 func (s *raceState) panicked(where string, p interface{}) {
 	s.mu.Lock()
 	if len(s.rep.Panics) < 3 {
-		s.rep.Panics = append(s.rep.Panics, fmt.Sprintf("%s: %v\n%s", where, p, debug.Stack()))
+		s.rep.Panics = append(s.rep.Panics, fmt.Sprintf("%s: %v\n%s", where, p, panicStack()))
 	}
 	s.mu.Unlock()
 	atomic.StoreInt32(&s.stop, 1)
@@ -183,6 +196,9 @@ func raceChild(family string, millis int64) {
 	st := &raceState{deadline: time.Now().Add(time.Duration(millis) * time.Millisecond)}
 	st.rep.Family, st.rep.Millis = family, millis
 	workers := 4
+	if family == "timeout-delivery" {
+		workers = 6
+	}
 	if n := runtime.NumCPU() / 2; n < workers && n >= 1 {
 		workers = n
 	}
@@ -216,7 +232,7 @@ func raceChild(family string, millis int64) {
 			rng := rand.New(rand.NewSource(hlib.Seed()*1000 + int64(w)))
 			switch family {
 			case "timeout-delivery":
-				if w%2 == 0 {
+				if w%3 != 2 {
 					raceTimeoutDelivery(st, rng)
 				} else {
 					raceCloseDelivery(st, rng)
@@ -472,7 +488,7 @@ func raceServer(st *raceState, rng *rand.Rand, send bool) {
 	}
 }
 
-// ---- finding 12, client (and 5 on a real connection): a raw TCP peer streams EVENT frames and, for the odd workers,
+// ---- finding 12, client (and 5 on a real connection): a raw TCP peer streams EVENT frames and, for one worker in four,
 // answers every request at once while the client uses a tiny read timeout; the client connection is closed mid-stream
 func raceCloseFloodClient(st *raceState, rng *rand.Rand, w int) {
 	l, err := net.Listen("tcp", "127.0.0.1:0")
@@ -485,7 +501,7 @@ func raceCloseFloodClient(st *raceState, rng *rand.Rand, w int) {
 	for i := 0; i < 50; i++ {
 		_ = frame.NewCodec().EncodeFrame(eventFrame(int64(i)), events)
 	}
-	echo := w%2 == 1
+	echo := w%4 == 3
 	go func() {
 		for {
 			peer, err := l.Accept()
